@@ -2,16 +2,6 @@
    P ++ va? ++ K ++ vk?, hence the forwarding theorem for flat signatures. *)
 From Boltons Require Import Lib.Prelude Spec.C13_Spec Model.C13_Model Proofs.C13_Bind.
 
-Definition names_of_kind (k : kind) (ps : list param) : list name :=
-  map p_name (filter (fun p => kind_eqb (p_kind p) k) ps).
-
-(* the invocation generated for a signature:  _call(p.., *va, k=k.., **vk) *)
-Definition inv_of_params (ps : list param) : invocation :=
-  mkInv (names_of_kind PosOrKw ps)
-        (hd_error (names_of_kind VarPos ps))
-        (map (fun n => (n, n)) (names_of_kind KwOnly ps))
-        (hd_error (names_of_kind VarKw ps)).
-
 Lemma kinds_ordered_tail p r : kinds_ordered (p :: r) = true -> kinds_ordered r = true.
 Proof.
   simpl. destruct r as [|q r']; [reflexivity|]. intro H. apply andb_true_iff in H as [_ H]. exact H.
